@@ -1,4 +1,5 @@
 import Proofs.MsgLayer.Dedup
+import Proofs.MsgLayer.Schedule
 /-!
 Delivery accounting for the de-duplication table.
 
@@ -371,5 +372,83 @@ theorem run_account (R : Remote) (M : Nat) (s : State) (es : List TEv) :
     have h2 := ih (step s e).1
     simp only [run, expiryCount_cons, deliverCount_append]
     omega
+
+theorem expiryCount_eq_zero {R : Remote} {M : Nat} {es : List TEv}
+    (h : ∀ e ∈ es, e.ev ≠ .fireExpire R M) : expiryCount R M es = 0 := by
+  induction es with
+  | nil => rfl
+  | cons e es ih =>
+    rw [expiryCount_cons, ih (fun e' he' => h e' (List.mem_cons_of_mem _ he'))]
+    have h0 := h e List.mem_cons_self
+    cases hev : e.ev with
+    | fireExpire r m =>
+      simp only [expires, Nat.add_zero]
+      split
+      · rename_i hc
+        simp only [Bool.and_eq_true, beq_iff_eq] at hc
+        rw [hev, hc.1, hc.2] at h0
+        exact absurd rfl h0
+      · rfl
+    | _ => rfl
+
+-- runs and the timers the event loop fires -------------------------------------------------------
+
+theorem run_append (s : State) (es fs : List TEv) :
+    run s (es ++ fs) = ((run (run s es).1 fs).1, (run s es).2 ++ (run (run s es).1 fs).2) := by
+  induction es generalizing s with
+  | nil => simp [run]
+  | cons e es ih => simp only [List.cons_append, run, ih, List.append_assoc]
+
+/-- `advance` is `run` on the timer events it reports -/
+theorem advance_eq_run (fuel : Nat) (s : State) (bound : Nat) :
+    run s (advance fuel s bound).2.2 = ((advance fuel s bound).1, (advance fuel s bound).2.1) := by
+  induction fuel generalizing s with
+  | zero => rfl
+  | succ n ih =>
+    simp only [advance]
+    split
+    · rfl
+    · simp only [run, ih]
+
+/-- a pending expiry timer belongs to a table entry with that key and that expiry -/
+theorem HasEntry_of_timer {s : State} {R : Remote} {M t : Nat} {tm : Timer}
+    (hmem : (t, tm) ∈ timers s) (hev : tm.toEv = .fireExpire R M) : HasEntry s R M t := by
+  cases tm with
+  | retransmit r m => cases hev
+  | emptyAck r tok => cases hev
+  | expire r m =>
+    simp only [Timer.toEv, Ev.fireExpire.injEq] at hev
+    obtain ⟨rfl, rfl⟩ := hev
+    simp only [timers, List.mem_append, List.mem_map] at hmem
+    rcases hmem with (⟨e, _, heq⟩ | ⟨p, _, heq⟩) | ⟨q, hq, heq⟩
+    · simp at heq
+    · simp at heq
+    · simp only [Prod.mk.injEq, Timer.expire.injEq] at heq
+      exact ⟨q, hq, heq.2.1, heq.2.2, heq.1⟩
+
+/-- every expiry event fired by `advance` fires at the expiry recorded in an entry with its key,
+in the state it fires in (the state reached by the timer events fired before it) -/
+theorem advance_fireExpire (fuel : Nat) (s : State) (bound : Nat) (R : Remote) (M : Nat)
+    (pre post : List TEv) (e : TEv) (hsplit : (advance fuel s bound).2.2 = pre ++ e :: post)
+    (hev : e.ev = .fireExpire R M) : HasEntry (run s pre).1 R M e.time ∧ e.time < bound := by
+  induction fuel generalizing s pre with
+  | zero => simp [advance] at hsplit
+  | succ n ih =>
+    simp only [advance] at hsplit
+    split at hsplit
+    · simp at hsplit
+    · rename_i t tm he
+      simp only at hsplit
+      cases pre with
+      | nil =>
+        simp only [List.nil_append, List.cons.injEq] at hsplit
+        obtain ⟨rfl, _⟩ := hsplit
+        have hm := earliestBefore_mem he
+        exact ⟨HasEntry_of_timer hm.1 hev, hm.2⟩
+      | cons p pre =>
+        simp only [List.cons_append, List.cons.injEq] at hsplit
+        obtain ⟨rfl, hrest⟩ := hsplit
+        simp only [run]
+        exact ih _ pre hrest
 
 end Aiocoap.MsgLayer
